@@ -104,3 +104,44 @@ def dialect_agreement(ctx: Ctx) -> None:
     for a, b in (('to_csv', 'from_csv'), ('to_tsv', 'from_tsv')):
         good = len(set(pairs[a])) == 1 and set(pairs[a]) == set(pairs[b]) and all(x.startswith("'") for x in pairs[a])
         (ctx.ok if good else ctx.bad)(R, frame.methods[a], frame.methods[a].node, f'{a} and {b} pass delimiter {pairs[a]} / {pairs[b]}', key=f'wrappers:{a}')
+
+
+def accumulator_consistency(ctx: Ctx, only: tp.Optional[tp.Sequence[str]] = None) -> None:
+    R = 'I.accumulator-update-consistency'
+    ctx.rule(R, 'contradiction rule (Engler et al.): within one loop, the paths that update the same cell `A[i]` of a carried array or mapping '
+             'agree on how it is updated — all accumulate (`+=`) or all (re)define (`=` of a non-constant); a loop in which one path '
+             'accumulates a running count and a sibling path overwrites it holds two contradictory beliefs about what the cell means '
+             '(resets to a constant are a separate, accepted form)', floor=1 if only else 8)
+    prog = ctx.prog
+    n = 0
+    for f in prog.all_funcs():
+        if isinstance(f.node, ast.Lambda):
+            continue
+        if only is not None and not any(f.qualname.startswith(o) for o in only):
+            continue
+        for lp in walk_local(f.node):
+            if not isinstance(lp, (ast.For, ast.While)):
+                continue
+            ups: tp.Dict[str, tp.List[tp.Tuple[str, ast.stmt]]] = {}
+            for s in ast.walk(lp):
+                if isinstance(s, ast.AugAssign) and isinstance(s.target, ast.Subscript):
+                    ups.setdefault(norm(s.target), []).append(('accumulate', s))
+                elif isinstance(s, ast.Assign) and isinstance(s.targets[0], ast.Subscript) and not isinstance(s.value, ast.Constant):
+                    ups.setdefault(norm(s.targets[0]), []).append(('define', s))
+            # only the innermost loop that contains all the updates of a cell is the instance
+            for cell, lst in ups.items():
+                if len(lst) < 2:
+                    continue
+                inner = [x for x in ast.walk(lp) if isinstance(x, (ast.For, ast.While)) and x is not lp and all(any(y is s for y in ast.walk(x)) for _k, s in lst)]
+                if inner:
+                    continue
+                n += 1
+                kinds = {k for k, _s in lst}
+                key = f'{f.name}:{cell}@loop#{sum(1 for x in walk_local(f.node) if isinstance(x, (ast.For, ast.While)) and x.lineno <= lp.lineno)}'
+                if len(kinds) == 1:
+                    ctx.ok(R, f, lst[0][1], f'{len(lst)} updates of `{cell}`, all `{next(iter(kinds))}`', key=key)
+                else:
+                    odd = [s for k, s in lst if k == 'define']
+                    ctx.bad(R, f, odd[0], f'`{cell}` is accumulated on one path of the loop and overwritten (`{norm(odd[0])[:70]}`) on another: the carried value means '
+                            'two different things, one of the paths loses (or double-counts) what was carried in', key=key)
+    ctx.require(n >= (1 if only else 8), 'loops with several updates of one cell')
